@@ -85,9 +85,15 @@ def urlunsplit (scheme host path : Str) (query : Option Str) : Str :=
   | some q => if q.isEmpty then url else url ++ '?' :: q
   | none => url
 
+/-- `query_args if query_args is not None else self.query_args` -/
+def effQa (a : Adapter) (qa : QueryArgs) : QueryArgs :=
+  match qa with
+  | .none => a.queryArgs
+  | q => q
+
 /-- `MapAdapter.make_redirect_url(path_info, query_args, domain_part)` -/
 def makeRedirectUrl (hostMatching : Bool) (a : Adapter) (pathInfo : Str) (qa : QueryArgs) (domainPart : Option Str) : Str :=
-  let qa := match qa with | .none => a.queryArgs | q => q
+  let qa := effQa a qa
   let queryStr := if qa.truthy then some (encodeQueryArgs qa) else none
   let scheme := if a.urlScheme.isEmpty then "http".toList else a.urlScheme
   let host := getHost hostMatching a domainPart
